@@ -7,6 +7,7 @@ import (
 	"encoding/hex"
 	"encoding/json"
 	"fmt"
+	"os"
 	"regexp"
 	"sort"
 	"strconv"
@@ -90,6 +91,8 @@ type Base struct {
 	ColdResources []string
 	Unsynced      []string
 	afterSync     []func()
+	// Property is the property being checked (set by the scenario factory).
+	Property string
 	// FaultLog lists the injected faults of this history as features ("fault:update/jobs/status=conflict").
 	FaultLog []string
 	// StaticFeatures are scenario-level features (e.g. "foreign-pod").
@@ -217,6 +220,9 @@ func (b *Base) Outcome() string {
 	}
 	return ""
 }
+
+// SetProperty names the property whose check runs this world (generic monitors report under it).
+func (b *Base) SetProperty(p string) { b.Property = p }
 
 // Now returns the simulated time.
 func (b *Base) Now() time.Time { return b.Clock.Now() }
@@ -417,6 +423,15 @@ func (b *Base) Apply(action string) {
 		b.ResyncPending = false
 	case !b.IsSystem(action), strings.HasPrefix(action, "work:") && b.API.Version() != versionBefore:
 		b.ResyncPending = true
+	}
+	// Objects in an informer cache are shared by everybody in the process: whoever needs to change
+	// one must work on a copy. Checked after every step of the controller.
+	if strings.HasPrefix(action, "work:") {
+		for _, inf := range b.Ctx.Set.All() {
+			if keys := inf.MutatedKeys(); len(keys) > 0 {
+				b.Violate(b.Property, "cache-object-mutated", fmt.Sprintf("%s changed the informer-cache copy of %s %v in place", action, inf.Resource, keys), b.Features()...)
+			}
+		}
 	}
 	if b.AfterStep != nil {
 		b.AfterStep(action)
@@ -757,7 +772,7 @@ func (b *Base) InstallClock() {
 
 // Snapshot captures the whole world state, or nil if unsupported.
 func (b *Base) Snapshot() interface{} {
-	if !b.Snap.CanSnapshot || b.ColdStart {
+	if !b.Snap.CanSnapshot || b.ColdStart || os.Getenv("VERIF_NO_SNAPSHOT") != "" {
 		return nil
 	}
 	s := &baseSnap{
